@@ -228,6 +228,9 @@ class PathResult:
         return f"<path {self.kind} {self.value!r} |pc|={len(self.pc)}>"
 
 
+# classes, functions and modules of the interpreted program are dictionary keys by identity (they define neither __eq__ nor __hash__)
+IDENTITY_KEYS = (PClass, PFunc, PModule)
+
 # measured on every run: which functions / statements of the source under verification were executed symbolically (evidence: functions_executed)
 EXECUTED_FUNCS = set()
 EXECUTED_LINES = set()
@@ -1286,7 +1289,7 @@ class Interp:
                         raise PyRaise(KeyError(args[0]))
                     return args[1] if len(args) > 1 else None
                 return slf.pop(x) if fn.__name__ == "pop" else slf[x]
-            if isinstance(slf, dict) and fn.__name__ in ("get", "pop", "setdefault", "__getitem__") and args and not self.concrete(args[0]):
+            if isinstance(slf, dict) and fn.__name__ in ("get", "pop", "setdefault", "__getitem__") and args and not self.concrete(args[0]) and not isinstance(args[0], IDENTITY_KEYS):
                 raise Unsupported("symbolic key into a concrete dict")
             try:
                 return fn(*args, **kwargs)
@@ -1682,7 +1685,7 @@ class Interp:
             x = self.find_key(o, k)
             o[k if x is PClass.MISSING else x] = v
             return
-        if isinstance(o, (dict, collections.ChainMap)) and not self.concrete(k):
+        if isinstance(o, (dict, collections.ChainMap)) and not self.concrete(k) and not isinstance(k, IDENTITY_KEYS):
             zk = self.zstr(k)
             if zk is None or not all(self.zstr(x) is not None for x in o.keys()):
                 raise Unsupported("symbolic key into a concrete dict")
@@ -1729,7 +1732,7 @@ class Interp:
                 if self.truth(r):
                     return o[x]
             raise PyRaise(KeyError("<symbolic>"))
-        if not self.concrete(k):
+        if not self.concrete(k) and not (isinstance(o, dict) and isinstance(k, IDENTITY_KEYS)):
             raise Unsupported("symbolic subscript")
         try:
             return o[k]
